@@ -80,12 +80,21 @@ pub fn run(args: &[String]) -> i32 {
         }
         if !ok { *rejected.entry(format!("MT{}:unconcretisable", mt)).or_insert(0) += 1; continue; }
         let text = full_message(&mt, &block4_text(&fields));
+        if let Some(w) = texts.as_mut() {
+            let _ = writeln!(w, "{}", json!({"mt": mt, "text": text}));
+        }
         let info = match session::typed(&mt, &text) {
             Ok(i) => i,
             Err(e) => {
-                // messages the parser refuses cannot reach validation: counted, reported in evidence
+                // messages the parser refuses cannot reach validation: counted, reported in evidence;
+                // a panic on the way (parsing or validating) is no verdict at all
                 let key = format!("MT{}:{}", mt, e.chars().take(70).collect::<String>());
                 *rejected.entry(key).or_insert(0) += 1;
+                if e.starts_with("panic:") {
+                    let replay = json!({"kind": "rules", "mt": mt, "facts": c["facts"], "text": text, "expected": want, "panic": e});
+                    let en = violations.entry(format!("C04|MT{}|no-verdict:panic", mt)).or_insert((0, replay));
+                    en.0 += 1;
+                }
                 continue;
             }
         };
@@ -102,9 +111,6 @@ pub fn run(args: &[String]) -> i32 {
         for x in got.difference(&want) {
             let e = violations.entry(format!("C04|MT{}|unexpected:{}", mt, x)).or_insert((0, replay.clone()));
             e.0 += 1;
-        }
-        if let Some(w) = texts.as_mut() {
-            let _ = writeln!(w, "{}", json!({"mt": mt, "text": text}));
         }
         if samples.len() < 4 && want.len() >= 2 {
             samples.push(json!({"mt": mt, "facts": c["facts"], "expected": want, "reported": got, "text": text}));
